@@ -246,7 +246,7 @@ func (t *c07Tree) treeComplete() string {
 	if err != nil {
 		return err.Error()
 	}
-	if cat, d := diffTrees(t.want, got, map[string]bool{"mtime-symlink": true}); cat != "" {
+	if cat, d := diffTrees(t.want, got, map[string]bool{}); cat != "" {
 		return "unpacked tree is incomplete (" + cat + "): " + d
 	}
 	return ""
@@ -673,7 +673,7 @@ func runC07Proc(c *fw.Case) {
 			if err != nil {
 				return err.Error()
 			}
-			if cat, d := diffTrees(wantTree, got, map[string]bool{"mtime-symlink": true}); cat != "" {
+			if cat, d := diffTrees(wantTree, got, map[string]bool{}); cat != "" {
 				return "tree incomplete: " + d
 			}
 		}
